@@ -212,10 +212,14 @@ class TurtleMDEngine(EngineBase):
             seed = self.rgen.integers(0, 1e9)
         else:
             raise ValueError("Missing random generator!")
+        integrator_settings = dict(self.integrator_settings)
+        if self.integrator in (LangevinInertia, LangevinOverdamped):
+            # only the stochastic integrators take a seed
+            integrator_settings["seed"] = seed
         tmd_simulation = MDSimulation(
             system=tmd_system,
             integrator=self.integrator(
-                timestep=self.timestep, **self.integrator_settings, seed=seed
+                timestep=self.timestep, **integrator_settings
             ),
             steps=path.maxlen * self.subcycles,
         )
